@@ -48,7 +48,8 @@ unsafe impl<T> Trace for NoTrace<T> {
 impl<T> Finalize for NoTrace<T> {}
 
 pub struct Node {
-    pub id: usize,
+    /// identity = creation index of the box (assigned when the box is allocated)
+    pub idc: Cell<usize>,
     canary: Cell<u64>,
     boxed: Cell<bool>,
     moved: Cell<bool>,
@@ -82,7 +83,7 @@ unsafe impl Trace for Node {
         if !it.check_self(self, "T") {
             return;
         }
-        ev!("T{}:{}", self.id, b01(is_tracing()));
+        ev!("T{}:{}", self.idc.get(), b01(is_tracing()));
         // fault plan: the k-th trace call panics after forwarding j non-empty traced fields
         let fault = {
             let f = it.f_trace.get();
@@ -125,20 +126,20 @@ impl Finalize for Node {
         if !it.check_self(self, "F") {
             return;
         }
-        ev!("F{}:{}", self.id, b01(is_tracing()));
+        ev!("F{}:{}", self.idc.get(), b01(is_tracing()));
         let _cb = InCallback::enter_fd();
         // C05 oracles: at most once per arming; never with the feature off; everything reachable from a
         // finalizing object is still undropped
         {
             let mut fc = it.fin_counts.borrow_mut();
-            let e = fc.entry(self.id).or_insert((0, 0));
+            let e = fc.entry(self.idc.get()).or_insert((0, 0));
             e.0 += 1;
             if e.0 > 1 + e.1 {
-                ev!("!fin-twice:{}", self.id);
+                ev!("!fin-twice:{}", self.idc.get());
             }
         }
         if !it.feat.fin {
-            ev!("!fin-without-feature:{}", self.id);
+            ev!("!fin-without-feature:{}", self.idc.get());
         }
         it.check_reachable_alive(self, "F");
         if tick(&it.f_fin) {
@@ -155,14 +156,22 @@ impl Drop for Node {
         }
         let it = it();
         if self.moved.get() {
-            ev!("V{}", self.id);
+            ev!("V{}", self.idc.get());
             self.canary.set(DEAD);
             return;
         }
         if !it.check_self(self, "D") {
             return;
         }
-        ev!("D{}:{}", self.id, b01(is_tracing()));
+        ev!("D{}:{}", self.idc.get(), b01(is_tracing()));
+        // C04 / C05 oracle: a due finalizer runs before the destructor (unless a caught panic skipped it)
+        if it.feat.fin && !it.leaky.get() {
+            let id = self.idc.get();
+            let never = it.fin_counts.borrow().get(&id).map(|e| e.0 == 0).unwrap_or(true);
+            if never && !it.born_finalized.borrow().contains(&id) {
+                ev!("!drop-unfinalized:{}", id);
+            }
+        }
         let _cb = InCallback::enter_fd();
         self.canary.set(DEAD);
         if tick(&it.f_drop) {
@@ -268,6 +277,12 @@ pub struct Interp {
     cb_depth: Cell<usize>,
     /// number of `Finalize::finalize` / `Drop::drop` callbacks of payload values currently running
     fd_depth: Cell<usize>,
+    /// explicit `collect_cycles()` calls made during the current top-level operation
+    explicit_collects: Cell<usize>,
+    /// allocation attempts (`Cc::new`, `new_cyclic`, first `register`) made during the current top-level operation
+    alloc_attempts: Cell<usize>,
+    /// objects that report `already_finalized()` right after creation (created while finalizing)
+    born_finalized: RefCell<HashSet<usize>>,
 }
 
 thread_local! {
@@ -335,6 +350,9 @@ impl Interp {
             action_runs: RefCell::new(HashMap::new()),
             cb_depth: Cell::new(0),
             fd_depth: Cell::new(0),
+            explicit_collects: Cell::new(0),
+            alloc_attempts: Cell::new(0),
+            born_finalized: RefCell::new(HashSet::new()),
         }
     }
 
@@ -398,11 +416,11 @@ impl Interp {
     fn check_self(&self, n: &Node, what: &str) -> bool {
         let canary = n.canary.get();
         if canary != ALIVE {
-            ev!("!{}-dead:{}", what, n.id);
+            ev!("!{}-dead:{}", what, n.idc.get());
             return false;
         }
-        if n.boxed.get() && !self.box_live(n.id) {
-            ev!("!{}-freed:{}", what, n.id);
+        if n.boxed.get() && !self.box_live(n.idc.get()) {
+            ev!("!{}-freed:{}", what, n.idc.get());
             return false;
         }
         true
@@ -416,7 +434,7 @@ impl Interp {
     /// Is the node behind this pointer an intact value in a live box?
     fn node_ok(&self, p: *const Node) -> Result<usize, usize> {
         let n = unsafe { &*p };
-        let id = n.id;
+        let id = n.idc.get();
         if n.canary.get() == ALIVE && self.box_live(id) {
             Ok(id)
         } else {
@@ -541,7 +559,7 @@ impl Interp {
 
     fn make_node(&self, id: usize, sp: &NewSpec) -> Node {
         Node {
-            id,
+            idc: Cell::new(id),
             canary: Cell::new(ALIVE),
             boxed: Cell::new(false),
             moved: Cell::new(false),
@@ -558,9 +576,12 @@ impl Interp {
         let snap = hooks::snapshot(cc);
         let n: &Node = &**cc;
         n.boxed.set(true);
-        self.register_box(n.id, BoxInfo { box_addr: snap.box_addr, kind: Kind::Node, node: n as *const Node, owner: 0 });
+        self.register_box(n.idc.get(), BoxInfo { box_addr: snap.box_addr, kind: Kind::Node, node: n as *const Node, owner: 0 });
         let size = alloc::block_at(snap.box_addr).map(|b| b.size).unwrap_or(0);
-        ev!("A{}:{}", n.id, size);
+        ev!("A{}:{}", n.idc.get(), size);
+        if cc_finalized(cc) == 1 {
+            self.born_finalized.borrow_mut().insert(n.idc.get());
+        }
     }
 
     fn run_script(&self, sid: usize, selfp: Option<*const Node>, wc: Option<*const Weak<Node>>) {
@@ -574,6 +595,9 @@ impl Interp {
     // ---------------------------------------------------------------- operations
 
     fn exec_op(&self, op: &Op, ctx: &Ctx) -> Ret {
+        if matches!(op, Op::New(..) | Op::NewCyclic(..) | Op::Reg(..)) {
+            self.alloc_attempts.set(self.alloc_attempts.get() + 1);
+        }
         match op {
             Op::Nop => Ret::Ok,
             Op::Panic => raise_logged(),
@@ -588,6 +612,7 @@ impl Interp {
                 Ret::Ok
             }
             Op::Collect => {
+                self.explicit_collects.set(self.explicit_collects.get() + 1);
                 collect_cycles();
                 Ret::Ok
             }
@@ -595,9 +620,10 @@ impl Interp {
                 if !self.h_free(*k) {
                     return Ret::Skip;
                 }
-                let id = self.fresh_id();
-                let node = self.make_node(id, sp);
+                let node = self.make_node(usize::MAX, sp);
                 let cc = Cc::new(node);
+                // identity = creation index of the box, assigned now that it exists
+                cc.idc.set(self.fresh_id());
                 self.adopt(&cc);
                 self.put_h(*k, cc);
                 Ret::Ok
@@ -633,6 +659,21 @@ impl Interp {
                 let Some(cell) = self.slot_of(node, *s) else { return Ret::Skip };
                 let Some(new) = self.with_cref(ctx, *r, |cc| cc.clone()) else { return Ret::Skip };
                 let old = cell.replace(Some(new));
+                drop(old);
+                Ret::Ok
+            }
+            Op::MoveF(n, s, k) => {
+                // safe Rust cannot move a pointer while the target is borrowed through that very pointer
+                if matches!(n, NRef::Of(CRef::H(k2)) if k2 == k) {
+                    return Ret::Skip;
+                }
+                let Some(node) = self.node_of(ctx, *n) else { return Ret::Skip };
+                if self.h.borrow().get(*k).map(|e| e.is_none()).unwrap_or(true) {
+                    return Ret::Skip;
+                }
+                let Some(cell) = self.slot_of(node, *s) else { return Ret::Skip };
+                let moved = self.h.borrow_mut()[*k].take();
+                let old = cell.replace(moved);
                 drop(old);
                 Ret::Ok
             }
@@ -678,7 +719,7 @@ impl Interp {
                     let mut h = self.h.borrow_mut();
                     match h.get_mut(*k).and_then(|e| e.as_mut()) {
                         Some(cc) => {
-                            let id = cc.id;
+                            let id = cc.idc.get();
                             cc.finalize_again();
                             self.fin_counts.borrow_mut().entry(id).or_insert((0, 0)).1 += 1;
                             if self.fd_depth.get() > 0 {
@@ -701,7 +742,7 @@ impl Interp {
                     h.get_mut(*k).and_then(|e| e.take())
                 };
                 let Some(cc) = taken else { return Ret::Skip };
-                let id = cc.id;
+                let id = cc.idc.get();
                 // C13 oracle: Ok exactly when the pointer is unique and no finalizer / destructor / action is running
                 // (inside a cleaning action alone the expectation depends on who runs the action: not asserted)
                 let unique = cc.strong_count() == 1;
@@ -740,7 +781,7 @@ impl Interp {
             Op::Clean(k) => self.op_clean(*k),
             Op::CDrop(k) => self.op_cdrop(*k),
             Op::CloneN(r, n) => {
-                let Some(id) = self.with_cref(ctx, *r, |cc| cc.id) else { return Ret::Skip };
+                let Some(id) = self.with_cref(ctx, *r, |cc| cc.idc.get()) else { return Ret::Skip };
                 for _ in 0..*n {
                     let c = self.with_cref(ctx, *r, |cc| cc.clone()).unwrap();
                     self.stash.borrow_mut().entry(id).or_default().push(c);
@@ -748,7 +789,7 @@ impl Interp {
                 Ret::Ok
             }
             Op::DropN(r, n) => {
-                let Some(id) = self.with_cref(ctx, *r, |cc| cc.id) else { return Ret::Skip };
+                let Some(id) = self.with_cref(ctx, *r, |cc| cc.idc.get()) else { return Ret::Skip };
                 for _ in 0..*n {
                     let c = self.stash.borrow_mut().get_mut(&id).and_then(|v| v.pop());
                     match c {
@@ -811,9 +852,11 @@ impl Interp {
         if !self.h_free(k) {
             return Ret::Skip;
         }
-        let id = self.fresh_id();
+        let idcell = Cell::new(usize::MAX);
         let cc = Cc::new_cyclic(|weak: &Weak<Node>| {
             // the box exists, the value does not
+            let id = self.fresh_id();
+            idcell.set(id);
             let box_addr = hooks::weak_box_addr(weak);
             self.register_box(id, BoxInfo { box_addr, kind: Kind::Node, node: std::ptr::null(), owner: 0 });
             let size = alloc::block_at(box_addr).map(|b| b.size).unwrap_or(0);
@@ -841,15 +884,19 @@ impl Interp {
             }
             node
         });
+        let id = idcell.get();
         {
             let n: &Node = &*cc;
             n.boxed.set(true);
             let snap = hooks::snapshot(&cc);
-            if n.id != id {
-                ev!("!newcyc-id:{}", n.id);
+            if n.idc.get() != id {
+                ev!("!newcyc-id:{}", n.idc.get());
             }
             if cc.strong_count() != 1 {
                 ev!("!cyclic-count:{}", id);
+            }
+            if cc_finalized(&cc) == 1 {
+                self.born_finalized.borrow_mut().insert(id);
             }
             let mut r = self.registry.borrow_mut();
             if let Some(Some(b)) = r.get_mut(id) {
@@ -884,7 +931,7 @@ impl Interp {
             return Ret::Skip;
         }
         let res = self.with_cref(ctx, r, |cc| {
-            let id = cc.id;
+            let id = cc.idc.get();
             // tag the side record even if `downgrade` panics after creating it
             struct TagOnExit<'a>(&'a Interp, &'a Cc<Node>, usize);
             impl Drop for TagOnExit<'_> {
@@ -912,7 +959,7 @@ impl Interp {
 
     #[cfg(feature = "weak")]
     fn op_downn(&self, ctx: &Ctx, r: CRef, n: usize) -> Ret {
-        let Some(id) = self.with_cref(ctx, r, |cc| cc.id) else { return Ret::Skip };
+        let Some(id) = self.with_cref(ctx, r, |cc| cc.idc.get()) else { return Ret::Skip };
         for _ in 0..n {
             let w = self.with_cref(ctx, r, |cc| {
                 struct TagOnExit<'a>(&'a Interp, &'a Cc<Node>, usize);
@@ -933,7 +980,7 @@ impl Interp {
 
     #[cfg(feature = "weak")]
     fn op_wdropn(&self, ctx: &Ctx, r: CRef, n: usize) -> Ret {
-        let Some(id) = self.with_cref(ctx, r, |cc| cc.id) else { return Ret::Skip };
+        let Some(id) = self.with_cref(ctx, r, |cc| cc.idc.get()) else { return Ret::Skip };
         for _ in 0..n {
             let w = self.wstash.borrow_mut().get_mut(&id).and_then(|v| v.pop());
             match w {
@@ -1065,7 +1112,7 @@ impl Interp {
         if !self.k_free(k) {
             return Ret::Skip;
         }
-        let owner_id = node.id;
+        let owner_id = node.idc.get();
         let captured: Option<Cc<Node>> = match cap {
             Some(r) => self.with_cref(ctx, r, |cc| cc.clone()),
             None => None,
@@ -1073,7 +1120,7 @@ impl Interp {
         let info = Rc::new(ActionInfo {
             aid: Cell::new(None),
             map_id: Cell::new(None),
-            cap: Cell::new(captured.as_ref().map(|c| c.id)),
+            cap: Cell::new(captured.as_ref().map(|c| c.idc.get())),
         });
         let info2 = info.clone();
         let had_map = cleaner.verif_map_snapshot().is_some();
@@ -1156,6 +1203,8 @@ impl Interp {
         alloc::with_tracker(|t| t.events.clear());
         let ctx = Ctx { selfp: None, wc: None };
         let execs_before = state::executions_count().unwrap_or(0);
+        self.explicit_collects.set(0);
+        self.alloc_attempts.set(0);
         let res = catch_unwind(AssertUnwindSafe(|| self.exec_op(op, &ctx)));
         // C11 / C12 oracle: an explicit collect_cycles() on an idle collector starts exactly one collection
         // (nested requests are no-ops); no other operation but allocation may start one, and at most one
@@ -1167,7 +1216,14 @@ impl Interp {
                     ev!("!execs:collect:{}", delta);
                 }
             }
-            _ => {}
+            _ => {
+                // C15 oracle: an allocation starts at most one collection; nothing else starts any
+                // (explicit requests made by callbacks during this operation are accounted for)
+                let bound = self.explicit_collects.get() + self.alloc_attempts.get();
+                if delta > bound {
+                    ev!("!execs:extra:{}>{}", delta, bound);
+                }
+            }
         }
         if is_tracing() || self.cb_depth.get() != 0 {
             ev!("!not-idle-after-op");
@@ -1190,6 +1246,7 @@ impl Interp {
         self.oracle_walk();
         self.oracle_counters();
         self.oracle_counts();
+        self.oracle_meta();
         if was_collect {
             self.oracle_complete();
         }
@@ -1202,7 +1259,7 @@ impl Interp {
             for (k, e) in h.iter().enumerate() {
                 if let Some(cc) = e {
                     let p = &**cc as *const Node;
-                    let id = unsafe { &*p }.id;
+                    let id = unsafe { &*p }.idc.get();
                     if !first {
                         out.push(',');
                     }
@@ -1362,7 +1419,7 @@ impl Interp {
     fn all_pointers(&self) -> HashMap<usize, usize> {
         let mut cnt: HashMap<usize, usize> = HashMap::new();
         for cc in self.h.borrow().iter().flatten() {
-            *cnt.entry(unsafe { &*(&**cc as *const Node) }.id).or_insert(0) += 1;
+            *cnt.entry(unsafe { &*(&**cc as *const Node) }.idc.get()).or_insert(0) += 1;
         }
         for (_id, b) in self.registry.borrow().iter().enumerate() {
             let Some(b) = b else { continue };
@@ -1374,7 +1431,7 @@ impl Interp {
             for s in n.slots.iter().chain(n.uslots.0.iter()) {
                 if let Ok(bw) = s.try_borrow() {
                     if let Some(cc) = bw.as_ref() {
-                        *cnt.entry(unsafe { &*(&**cc as *const Node) }.id).or_insert(0) += 1;
+                        *cnt.entry(unsafe { &*(&**cc as *const Node) }.idc.get()).or_insert(0) += 1;
                     }
                 }
             }
@@ -1420,6 +1477,59 @@ impl Interp {
         }
     }
 
+    /// C09: a side record whose allocation is gone and to which the program holds no `Weak` must have been released.
+    #[cfg(feature = "weak")]
+    fn oracle_meta(&self) {
+        let mut held: HashSet<usize> = HashSet::new();
+        let mut note = |w: &Weak<Node>| {
+            if let Some((m, _)) = hooks::weak_snapshot(w) {
+                held.insert(m);
+            }
+        };
+        for w in self.w.borrow().iter().flatten() {
+            note(w);
+        }
+        for v in self.wstash.borrow().values() {
+            for w in v.iter() {
+                note(w);
+            }
+        }
+        for b in self.registry.borrow().iter().flatten() {
+            if b.kind == Kind::Node && self.value_alive(b) {
+                let n = unsafe { &*b.node };
+                for s in n.wslots.iter() {
+                    if let Ok(bw) = s.try_borrow() {
+                        if let Some(w) = bw.as_ref() {
+                            note(w);
+                        }
+                    }
+                }
+            }
+        }
+        // cleanables hold a Weak to their map; leaked / half-dropped values may hold more: only assert for plain nodes
+        let cleanables = self.k.borrow().iter().flatten().count();
+        let leaky = self.leaky.get();
+        let reg = self.registry.borrow();
+        let metas: Vec<usize> = self.metas.borrow().iter().copied().collect();
+        for m in metas {
+            let Some(blk) = alloc::block_at(m) else { continue };
+            if !blk.live {
+                continue;
+            }
+            if let alloc::Tag::Meta(id) = blk.tag {
+                let Some(Some(b)) = reg.get(id) else { continue };
+                if b.kind == Kind::Map && cleanables > 0 {
+                    continue;
+                }
+                if !alloc::is_live(b.box_addr) && !held.contains(&m) && !leaky {
+                    ev!("!meta-leak:{}", id);
+                }
+            }
+        }
+    }
+    #[cfg(not(feature = "weak"))]
+    fn oracle_meta(&self) {}
+
     /// C02: after a `collect_cycles()` that ran no finalizer and no destructor, in a panic-free
     /// history, every allocated object is reachable from the tables or pinned through an untraced
     /// field of an unreclaimed object.
@@ -1436,7 +1546,7 @@ impl Interp {
         let mut allowed: HashSet<usize> = HashSet::new();
         let mut stack: Vec<usize> = Vec::new();
         for cc in self.h.borrow().iter().flatten() {
-            stack.push(unsafe { &*(&**cc as *const Node) }.id);
+            stack.push(unsafe { &*(&**cc as *const Node) }.idc.get());
         }
         for (id, v) in self.stash.borrow().iter() {
             if !v.is_empty() {
@@ -1458,7 +1568,7 @@ impl Interp {
                     for s in n.uslots.0.iter() {
                         if let Ok(bw) = s.try_borrow() {
                             if let Some(cc) = bw.as_ref() {
-                                stack.push(unsafe { &*(&**cc as *const Node) }.id);
+                                stack.push(unsafe { &*(&**cc as *const Node) }.idc.get());
                             }
                         }
                     }
@@ -1485,7 +1595,7 @@ impl Interp {
             for s in n.slots.iter().chain(n.uslots.0.iter()) {
                 if let Ok(bw) = s.try_borrow() {
                     if let Some(cc) = bw.as_ref() {
-                        stack.push(unsafe { &*(&**cc as *const Node) }.id);
+                        stack.push(unsafe { &*(&**cc as *const Node) }.idc.get());
                     }
                 }
             }
